@@ -188,6 +188,174 @@ impl Scenario for AnyResponder {
     }
 }
 
+/// generator (i) for the responder: simulated initiators (conformant clients that follow the spec
+/// automata, one in three Byzantine) connect, handshake and issue requests; the application answers the
+/// responder's external events with Provide* commands; `Sent` confirmations are delayed; errors and
+/// disconnects strike at any point.
+pub struct ByzResponder;
+impl Scenario for ByzResponder {
+    fn name(&self) -> &'static str {
+        "responder-byzantine-initiators"
+    }
+    fn run(&self, cx: &mut RunCx) -> Result<(), Violation> {
+        use crate::spec::proto::Agency;
+        use pallas_network2::behavior::responder::ResponderEvent;
+        use std::collections::VecDeque;
+        let n = cx.ch.range("peers", 1, 6) as usize;
+        let steps = cx.ch.range("steps", 1, 300);
+        let mut beh = ResponderBehavior::default();
+        struct Cl {
+            up: bool,
+            byz: bool,
+            spec: [u8; NPROTO],
+            sentq: VecDeque<AnyMessage>,
+        }
+        let mut cl: Vec<Cl> = (0..n).map(|_| Cl { up: false, byz: false, spec: [0; NPROTO], sentq: VecDeque::new() }).collect();
+        for c in cl.iter_mut() {
+            c.byz = cx.ch.chance("peer.byz", 1, 3);
+        }
+        let mut pending_events: VecDeque<ResponderEvent> = VecDeque::new();
+        let mut tcx = std::task::Context::from_waker(futures::task::noop_waker_ref());
+        for _ in 0..steps {
+            cx.st.steps += 1;
+            let i = cx.ch.draw("peer", n as u64) as usize;
+            let id = pid(i);
+            match cx.ch.draw("step", 12) {
+                0 => {
+                    cx.tr.ev("io.connected", &[i as u64]);
+                    cl[i].up = true;
+                    cl[i].spec = [0; NPROTO];
+                    cl[i].sentq.clear();
+                    beh.handle_io(InterfaceEvent::Connected(id));
+                }
+                1 | 2 | 3 | 4 => {
+                    // the client sends: a legal client move on some protocol, or (Byzantine) anything
+                    if !cl[i].up {
+                        continue;
+                    }
+                    let m = if cl[i].byz && cx.ch.chance("byz.msg", 1, 2) {
+                        cx.st.inc("fault.byzantine_message");
+                        any_msg(&mut cx.ch)
+                    } else {
+                        let cands: Vec<usize> = (0..NPROTO).filter(|q| SPECS[*q].agency(cl[i].spec[*q]) == Agency::Client).collect();
+                        if cands.is_empty() {
+                            continue;
+                        }
+                        // handshake first, as a real initiator does
+                        let proto = if cl[i].spec[HS] == 0 { HS } else { cands[cx.ch.draw("cl.proto", cands.len() as u64) as usize] };
+                        let legal = SPECS[proto].legal(cl[i].spec[proto]);
+                        let (k, nx) = legal[cx.ch.draw("cl.move", legal.len() as u64) as usize];
+                        cl[i].spec[proto] = nx;
+                        if proto == HS {
+                            // propose something the default responder (version 13, mainnet) may accept
+                            let mut t = gen_version_table(&mut cx.ch, 3, &MAGICS);
+                            if cx.ch.chance("hs.compatible", 3, 4) {
+                                t.values.insert(13, p::handshake::n2n::VersionData::new(p::MAINNET_MAGIC, false, Some(1), Some(false)));
+                            }
+                            AnyMessage::Handshake(p::handshake::Message::Propose(t))
+                        } else {
+                            gen_msg(proto, k, &mut cx.ch)
+                        }
+                    };
+                    cx.tr.ev("io.recv", &[i as u64]);
+                    cx.tr.note(|| format!("client {i} sends {:?}", m));
+                    cx.st.inc("probe.client_messages");
+                    beh.handle_io(InterfaceEvent::Recv(id, vec![m]));
+                }
+                5 | 6 => {
+                    // hand over outputs: Sends reach the client (its view advances), events go to the application
+                    for _ in 0..1 + cx.ch.draw("drain.n", 6) {
+                        match beh.poll_next_unpin(&mut tcx) {
+                            std::task::Poll::Ready(Some(BehaviorOutput::InterfaceCommand(InterfaceCommand::Send(to, m)))) => {
+                                cx.st.inc("probe.outputs");
+                                if let Some(j) = (0..n).find(|j| pid(*j) == to) {
+                                    let (pp, kk) = kind(&m);
+                                    if let Some(nx) = SPECS[pp].next(cl[j].spec[pp], kk) {
+                                        if SPECS[pp].agency(cl[j].spec[pp]) == Agency::Server {
+                                            cl[j].spec[pp] = nx;
+                                        }
+                                    }
+                                    cl[j].sentq.push_back(m);
+                                }
+                            }
+                            std::task::Poll::Ready(Some(BehaviorOutput::InterfaceCommand(InterfaceCommand::Disconnect(to)))) => {
+                                cx.st.inc("probe.outputs");
+                                if let Some(j) = (0..n).find(|j| pid(*j) == to) {
+                                    cl[j].up = false;
+                                }
+                                beh.handle_io(InterfaceEvent::Disconnected(to));
+                            }
+                            std::task::Poll::Ready(Some(BehaviorOutput::ExternalEvent(e))) => {
+                                cx.st.inc("probe.outputs");
+                                pending_events.push_back(e);
+                            }
+                            std::task::Poll::Ready(Some(_)) => cx.st.inc("probe.outputs"),
+                            _ => break,
+                        }
+                    }
+                }
+                7 => {
+                    // a delayed Sent confirmation arrives
+                    if let Some(m) = cl[i].sentq.pop_front() {
+                        cx.tr.ev("io.sent", &[i as u64]);
+                        beh.handle_io(InterfaceEvent::Sent(id, m));
+                    }
+                }
+                8 | 9 => {
+                    // the application serves one pending request (or, rarely, something unasked for)
+                    let cmd = match pending_events.pop_front() {
+                        Some(ResponderEvent::IntersectionRequested(p_, pts)) => ResponderCommand::ProvideIntersection(p_, pts.first().cloned().unwrap_or(p::Point::Origin), gen_tip(&mut cx.ch)),
+                        Some(ResponderEvent::NextHeaderRequested(p_)) => {
+                            if cx.ch.chance("app.rollback", 1, 4) { ResponderCommand::ProvideRollback(p_, gen_point(&mut cx.ch), gen_tip(&mut cx.ch)) } else { ResponderCommand::ProvideHeader(p_, gen_header(&mut cx.ch), gen_tip(&mut cx.ch)) }
+                        }
+                        Some(ResponderEvent::BlockRangeRequested(p_, _)) => ResponderCommand::ProvideBlocks(p_, (0..cx.ch.draw("app.blocks", 4)).map(|_| gen_blob(&mut cx.ch, 100)).collect()),
+                        Some(ResponderEvent::PeersRequested(p_, k)) => ResponderCommand::ProvidePeers(p_, (0..(k as u64).min(3)).map(|_| gen_peer_addr(&mut cx.ch)).collect()),
+                        Some(ResponderEvent::EbNotificationRequested(p_)) => ResponderCommand::ProvideEbOffer(p_, gen_point(&mut cx.ch), 9),
+                        Some(ResponderEvent::EbRequested(p_, _)) => ResponderCommand::ProvideEb(p_, gen_anycbor(&mut cx.ch)),
+                        Some(ResponderEvent::EbTxsRequested(p_, e, b)) => ResponderCommand::ProvideEbTxs(p_, e, b, vec![gen_anycbor(&mut cx.ch)]),
+                        Some(_) => ResponderCommand::Housekeeping,
+                        None => {
+                            if cx.ch.chance("app.unasked", 1, 6) { ResponderCommand::ProvideHeader(id, gen_header(&mut cx.ch), gen_tip(&mut cx.ch)) } else { ResponderCommand::Housekeeping }
+                        }
+                    };
+                    cx.tr.ev("cmd", &[]);
+                    cx.st.inc("probe.app_commands");
+                    beh.execute(cmd);
+                }
+                10 => {
+                    match cx.ch.draw("conn.fault", 4) {
+                        0 => {
+                            cx.st.inc("fault.connection_reset");
+                            cx.tr.ev("io.error", &[i as u64]);
+                            beh.handle_io(InterfaceEvent::Error(id, InterfaceError::Other("reset".into())));
+                        }
+                        1 => {
+                            cx.tr.ev("io.disconnected", &[i as u64]);
+                            cl[i].up = false;
+                            beh.handle_io(InterfaceEvent::Disconnected(id));
+                        }
+                        2 => beh.execute(ResponderCommand::BanPeer(id)),
+                        _ => beh.execute(ResponderCommand::DisconnectPeer(id)),
+                    }
+                }
+                _ => {
+                    cx.tr.ev("io.idle", &[]);
+                    beh.handle_io(InterfaceEvent::Idle);
+                }
+            }
+        }
+        let mut guard = 0;
+        while let std::task::Poll::Ready(Some(_)) = beh.poll_next_unpin(&mut tcx) {
+            guard += 1;
+            if guard > 100_000 {
+                return Err(Violation::new("liveness", "unbounded-output", "responder produced > 100000 outputs without input"));
+            }
+        }
+        cx.st.progress = true;
+        Ok(())
+    }
+}
+
 pub fn def() -> CheckDef {
     CheckDef {
         prop: "C29",
@@ -196,12 +364,13 @@ pub fn def() -> CheckDef {
             batch(ByzInitiator, 30_000, 1_500_000, true),
             batch(AnyInitiator, 40_000, 2_000_000, true),
             batch(AnyResponder, 40_000, 2_000_000, true),
+            batch(ByzResponder, 30_000, 1_500_000, true),
         ],
-        rule: "histories of up to 300 events over 1..8 known and 2 unknown peers: (i) faithful connection model with Byzantine peers (any message of any protocol in any state, huge peer lists, numeric extremes), resets and connect failures; (ii) unconstrained alphabet - any InterfaceEvent (Connected/Disconnected/Error/Recv/Sent/Idle) for any peer in any order interleaved with every command; oracle: no panic, output stream stays pollable and finite; non-trivial = completed history with a non-neutral choice; distinct = distinct event traces",
+        rule: "histories of up to 300 events over 1..8 known and 2 unknown peers: (i) faithful connection model with Byzantine peers (any message of any protocol in any state, huge peer lists, numeric extremes), resets and connect failures - for the initiator against simulated responders, for the responder against simulated initiators whose requests the application answers with Provide* commands; (ii) unconstrained alphabet - any InterfaceEvent (Connected/Disconnected/Error/Recv/Sent/Idle) for any peer in any order interleaved with every command; oracle: no panic, output stream stays pollable and finite; non-trivial = completed history with a non-neutral choice; distinct = distinct event traces",
         real: vec!["InitiatorBehavior", "ResponderBehavior", "all sub-behaviours/visitors", "protocol::*::State::apply", "OutboundQueue"],
         stub: vec!["Interface (simulated)", "Manager (seeded loop)", "peers (Byzantine generators)"],
         assumptions: vec!["built with overflow checks on, so arithmetic overflow counts as a panic (as in the repository's own test profile)"],
-        required: vec!["fault.arbitrary_inbound_message", "fault.byzantine_message", "fault.connection_reset", "probe.outputs"],
+        required: vec!["fault.arbitrary_inbound_message", "fault.byzantine_message", "fault.connection_reset", "probe.outputs", "probe.client_messages", "probe.app_commands"],
         env_nondeterminism: "event order, peer misbehaviour, connection faults, HashMap iteration order",
     }
 }
